@@ -97,10 +97,12 @@ def _optimise_operator(op):
         # If nothing added - is a leaf!
         isleaf = True
         if isinstance(op, _OpChain):
-           for i in range(len(op._ops)):
-                if isnode(op._ops[i]):
-                    nodes.append((op._ops[i], active_node, left))
-                    isleaf = False
+            # Only a node that consumes the input of the chain directly can be
+            # cut out (the cut replaces the innermost element). A node above
+            # further operators lives on their target: the chain stays a leaf.
+            if isnode(op._ops[-1]):
+                nodes.append((op._ops[-1], active_node, left))
+                isleaf = False
         elif isnode(op):
             nodes.append((op, active_node, left))
             isleaf = False
